@@ -152,7 +152,8 @@ class PlugImpl(object):
             return 'r%d/%s/%d/%d' % (g, wire.enc(cells['name']), int(cells['t']), cmd_of(ic['command']))
         g = self.gen.get(id(cells.get('self')), (0,))[0]
         text = cells.get('command', cells.get('text', ''))
-        return 's%d/%d/%d' % (g, getattr(f, 'eventId', -1), cmd_of(text))
+        eid = getattr(f, 'eventId', -1)
+        return 's%d/%s/%d' % (g, eid if isinstance(eid, int) else repr(eid), cmd_of(text))
 
     @staticmethod
     def enc_table(d):
@@ -165,6 +166,12 @@ class PlugImpl(object):
         return ';'.join(out) or '-'
 
     def state(self):
+        try:
+            return self._state()
+        except Exception as e:      # a broken plugin must not take the harness down
+            return '?state: %s: %s' % (type(e).__name__, e)
+
+    def _state(self):
         L = self.L
         S = L.sched
         ents = sorted('%d/%s/%s' % (int(x[0]), enc_name(x[1]), self.describe(S.events.get(x[1]))) for x in S.schedule)
@@ -363,8 +370,10 @@ def gen_ops(r, maxlen=30):
             ops.append(['prestart'])
         elif x < 0.79:
             ops.append(['pforeign', r.randint(1, 9), 1000 + r.choice([5, 30, 60])])
-        elif x < 0.90:
+        elif x < 0.89:
             ops.append(['ptick', r.choice([1, 2, 3, 5, 8, 13, 30])])
+            if r.random() < 0.5:
+                ops.append(['prun'])
         else:
             ops.append(['prun'])
     # closing phase: plugin loaded, repeating events removed, clock far ahead, everything due runs
